@@ -218,6 +218,9 @@ def whitebox(chk, wvbin, wd, pid, sessions, name="wb"):
     for s in sessions:
         for st in s["steps"]:
             st["wb"] = True
+            # every 7th capture search below the horizon is logged node by node (at most 600 events per worker and iteration)
+            st.setdefault("qs_every", 7)
+            st.setdefault("qs_budget", 600)
     traces = run_scripts(wvbin, wd, name, sessions, nproc=min(NPROC, max(1, len(sessions))))
     streams = []
     k = 0
@@ -761,7 +764,8 @@ def check_c19(pid, tier, seed):
     pub = [{"id": 500000 + i, "fen": fens[i], "depth": rnd.choice([1, 2, 3]), "seed": rnd.randrange(1 << 30), "reuse": False, "tag": "P"} for i in range(4 if quick else 24)]
     # capture-rich positions whose early iterations are slow (anything that adapts the worker count to timing shows here)
     for k, f in enumerate(["q2k2q1/2nqn2b/1n1P1n2/2rnr3/1NQ1QN2/3Q3B/2RQR3/3K2Q1 w - - 0 1", "rnb2bnr/p4k2/4p1p1/1ppp1pqp/P1PPPBPP/NP3N2/5P2/R1Q1KB1R b KQ - 1 11"]):
-        pub.append({"id": 510000 + k, "fen": f, "depth": 2, "seed": rnd.randrange(1 << 30), "reuse": False, "tag": "P"})
+        for r in range(2 if quick else 6):
+            pub.append({"id": 510000 + 10 * k + r, "fen": f, "depth": 2 if quick or r % 2 == 0 else 3, "seed": rnd.randrange(1 << 30), "reuse": False, "tag": "P"})
     # one process pair per case, so that run A is the *first* fresh search of its process and run B a later one
     ptr = []
     for j, pcase in enumerate(pub):
